@@ -6,7 +6,7 @@ use num::bigint::ToBigInt;
 use num::bigint::{BigInt, Sign};
 use num::complex::Complex64;
 use num::pow::Pow;
-use num::{One, Signed, ToPrimitive, Zero};
+use num::{Signed, ToPrimitive, Zero};
 use std::cmp::Ordering;
 use std::fmt;
 use std::hash::{Hash, Hasher};
@@ -657,6 +657,17 @@ impl NNum {
     }
 }
 
+// Numbers that are == must hash alike whatever their level: integral values hash as integers,
+// other finite reals through their exact (reduced) fraction.
+fn consistent_hash_rational<H: Hasher>(r: &BigRational, state: &mut H) {
+    if r.is_integer() {
+        NInt::hash(&NInt::Big(r.to_integer()), state)
+    } else {
+        BigInt::hash(r.numer(), state);
+        BigInt::hash(r.denom(), state);
+    }
+}
+
 fn consistent_hash_f64<H: Hasher>(f: f64, state: &mut H) {
     match to_nint_if_int(f) {
         Some(s) => NInt::hash(&s, state),
@@ -665,9 +676,11 @@ fn consistent_hash_f64<H: Hasher>(f: f64, state: &mut H) {
                 // some nan from wikipedia (not that this matters)
                 state.write_u64(0x7FF0000000000001u64)
             } else {
-                // I *think* this actually obeys the laws...?
-                // (+/- 0 are handled by the bigint branch)
-                f.to_bits().hash(state)
+                match BigRational::from_float(f) {
+                    Some(r) => consistent_hash_rational(&r, state),
+                    // infinities (+/- 0 are handled by the bigint branch)
+                    None => f.to_bits().hash(state),
+                }
             }
         }
     }
@@ -677,17 +690,14 @@ impl NNum {
     pub fn total_hash<H: Hasher>(&self, state: &mut H) {
         match self {
             NNum::Int(a) => NInt::hash(&a, state),
-            NNum::Rational(r) => {
-                // TODO: should we make rationals consistent with floats?
-                BigInt::hash(r.numer(), state);
-                if !r.denom().is_one() {
-                    BigInt::hash(r.denom(), state);
-                }
-            }
+            NNum::Rational(r) => consistent_hash_rational(r, state),
             NNum::Float(f) => consistent_hash_f64(*f, state),
             NNum::Complex(z) => {
                 consistent_hash_f64(z.re, state);
-                consistent_hash_f64(z.im, state);
+                // a complex number with zero imaginary part == its real part
+                if z.im != 0.0 {
+                    consistent_hash_f64(z.im, state);
+                }
             }
         }
     }
